@@ -52,6 +52,7 @@ func Run(r *vk.Run) {
 	r.Require("signature", int64(nCases/10))
 	r.Require("ref-bytes", int64(nCases/2))
 	r.Require("ref-hash", int64(nCases/4))
+	r.Require("roundtrip-large-cache-file", 1)
 	r.Require("golden-bytes", 60)
 	r.Require("golden-hash", 30)
 	r.Require("golden-decode", 60)
@@ -66,6 +67,7 @@ func Run(r *vk.Run) {
 	checkGolden(ctx, r)
 	observeInvalidUTF8(r)
 	callerWrites(r)
+	decodedIndependence(ctx, r, r.N(60, 1500))
 	roundTrips(ctx, r, nCases)
 	commitments(r, nCommit)
 	totality(ctx, r, nInputs)
